@@ -164,40 +164,44 @@ def call_result(ctx, cname, rid):
                 # wait_for either times out (raiser) or completes
                 paths = [p for p in paths if (p.exit == 'exc' or any(
                     e.kind == 'caught' for e in p.events)) == (not waited)]
-            if len(paths) != 1:
-                raise AnalysisError('%s: %d paths for len=%d waited=%s'
+            if not paths:
+                raise AnalysisError('%s: no path for len=%d waited=%s'
+                                    % (construct, n, waited))
+            if len(paths) > 8:
+                raise AnalysisError('%s: %d paths for len=%d waited=%s; a '
+                                    'test is outside the abstraction'
                                     % (construct, len(paths), n, waited))
-            p = paths[0]
-            row = 'len(args)=%s wait=%s' % (n if n < 2 else '2+',
-                                            'ok' if waited else 'timeout')
-            if not waited:
-                ctx.check(p.exit == 'raise' and 'TimeoutError' in U(p.value)
-                          and 'asyncio' not in U(p.value), construct,
-                          '[%s] raises socketio TimeoutError' % row,
-                          key='timeout', reason='on wait failure: exit %s %s'
-                          % (p.exit, txt(p.value)), where=w, rid=rid)
-                continue
-            keep = lambda d: isinstance(d['expr'], ast.List) and \
-                not d['expr'].elts
-            v = run.pretty(run.expand(p.value, keep=keep)) \
-                if p.exit == 'return' else p.exit
-            coll = [k for k, d in run.symdefs.items()
-                    if isinstance(d['expr'], ast.List) and
-                    not d['expr'].elts and d['kind'] == 'assign']
-            cn = run.symdefs[coll[0]]['name'] if coll else 'callback_args'
-            want = {0: 'None', 1: cn + '[0][0]', 2: cn + '[0]'}[n]
-            ctx.check(v == want, construct, '[%s] returns %s' % (row, want),
-                      key='result ' + row, reason='row {%s}: call() returns '
-                      '%s, expected %s' % (row, v, want), where=w,
-                      witness=row, rid=rid)
-            em = p.calls('emit')
-            okem = len(em) == 1 and U(dict(
-                (k.arg, k.value) for k in em[0].expr.keywords).get(
-                    'callback')) == 'event_callback' and \
-                em[0].recv() == 'self'
-            ctx.check(okem, construct, '[%s] emits once with the local '
-                      'collector as callback' % row, key='call-emit',
-                      where=w, rid=rid)
+            for p in paths:
+                row = 'len(args)=%s wait=%s' % (n if n < 2 else '2+',
+                                                'ok' if waited else 'timeout')
+                if not waited:
+                    ctx.check(p.exit == 'raise' and 'TimeoutError' in U(p.value)
+                              and 'asyncio' not in U(p.value), construct,
+                              '[%s] raises socketio TimeoutError' % row,
+                              key='timeout', reason='on wait failure: exit %s %s'
+                              % (p.exit, txt(p.value)), where=w, rid=rid)
+                    continue
+                keep = lambda d: isinstance(d['expr'], ast.List) and \
+                    not d['expr'].elts
+                v = run.pretty(run.expand(p.value, keep=keep)) \
+                    if p.exit == 'return' else p.exit
+                coll = [k for k, d in run.symdefs.items()
+                        if isinstance(d['expr'], ast.List) and
+                        not d['expr'].elts and d['kind'] == 'assign']
+                cn = run.symdefs[coll[0]]['name'] if coll else 'callback_args'
+                want = {0: 'None', 1: cn + '[0][0]', 2: cn + '[0]'}[n]
+                ctx.check(v == want, construct, '[%s] returns %s' % (row, want),
+                          key='result ' + row, reason='row {%s}: call() returns '
+                          '%s, expected %s' % (row, v, want), where=w,
+                          witness=row, rid=rid)
+                em = p.calls('emit')
+                okem = len(em) == 1 and U(dict(
+                    (k.arg, k.value) for k in em[0].expr.keywords).get(
+                        'callback')) == 'event_callback' and \
+                    em[0].recv() == 'self'
+                ctx.check(okem, construct, '[%s] emits once with the local '
+                          'collector as callback' % row, key='call-emit',
+                          where=w, rid=rid)
     cb = m.nested(f, 'event_callback')
     run = run_function(cb, m)
     ok = all(any(e.callee() == 'append' and
